@@ -222,6 +222,34 @@ func (h *SH) Sub(ctx context.Context, tok int, n int) (<-chan int, error) {
 	return out, nil
 }
 
+// SubSlow is Sub whose handler is still setting the subscription up (blocked like Block) when the
+// caller may cancel: the channel is returned only after the release.
+func (h *SH) SubSlow(ctx context.Context, tok int, n int) (<-chan int, error) {
+	h.C.enter(ctx, "SubSlow", tok)
+	select {
+	case <-h.C.relChan(tok):
+	case <-ctx.Done():
+		if h.C.Reaction > 0 {
+			time.Sleep(h.C.Reaction)
+		}
+		h.C.exit(tok, "ctx")
+		return nil, ctx.Err()
+	}
+	out := make(chan int)
+	go func() {
+		defer close(out)
+		defer h.C.exit(tok, "stream-end")
+		for i := 0; n < 0 || i < n; i++ {
+			select {
+			case out <- tok*1000000 + i:
+			case <-ctx.Done():
+				return
+			}
+		}
+	}()
+	return out, nil
+}
+
 // Rev is the client-side (reverse) API.
 type Rev struct {
 	Ident   func(context.Context, int) (int, error)
@@ -240,15 +268,16 @@ func (h *SH) CallBack(ctx context.Context, tok int) (int, error) {
 
 // CL is the client proxy struct.
 type CL struct {
-	Add        func(int, int) (int, error)
-	Echo       func(context.Context, int, int) (string, error)
-	Count      func(context.Context, int) (int, error)
-	CountRetry func(context.Context, int) (int, error) `retry:"true" rpc_method:"SH.Count"`
-	Block      func(context.Context, int) (int, error)
-	BlockRetry func(context.Context, int) (int, error) `retry:"true" rpc_method:"SH.Block"`
-	Note       func(int)                                `notify:"true"`
-	Sub        func(context.Context, int, int) (<-chan int, error)
-	CallBack   func(context.Context, int) (int, error)
+	Add           func(int, int) (int, error)
+	Echo          func(context.Context, int, int) (string, error)
+	Count         func(context.Context, int) (int, error)
+	CountRetry    func(context.Context, int) (int, error) `retry:"true" rpc_method:"SH.Count"`
+	Block         func(context.Context, int) (int, error)
+	BlockRetry    func(context.Context, int) (int, error) `retry:"true" rpc_method:"SH.Block"`
+	Note          func(int)                               `notify:"true"`
+	Sub           func(context.Context, int, int) (<-chan int, error)
+	SubSlow       func(context.Context, int, int) (<-chan int, error)
+	CallBack      func(context.Context, int) (int, error)
 	BlockBig      func(context.Context, int, int) (string, error)
 	NoteBlock     func(int) `notify:"true"`
 	CallBackBlock func(context.Context, int) (int, error)
@@ -260,14 +289,14 @@ type RevH struct{ ID int }
 func (r *RevH) Ident(ctx context.Context, tok int) (int, error) { return r.ID*1000 + tok%1000, nil }
 
 type Env struct {
-	RT     *hk.Runtime
-	H      *SH
-	Srv    *jsonrpc.RPCServer
-	TS     *httptest.Server
-	PX     *px.Proxy
+	RT        *hk.Runtime
+	H         *SH
+	Srv       *jsonrpc.RPCServer
+	TS        *httptest.Server
+	PX        *px.Proxy
 	SrvCtx    context.Context
 	SrvCancel context.CancelFunc
-	closed int32
+	closed    int32
 	// SlowClose: the HTTP server did not finish its handlers within 3s of all connections being closed
 	SlowClose bool
 	CloseTook time.Duration
